@@ -337,10 +337,20 @@ impl PathBuilder {
 
     /// Adds a path.
     pub fn push_path(&mut self, other: &Path) {
-        self.last_move_to_index = self.points.len();
-
-        self.verbs.extend_from_slice(&other.verbs);
-        self.points.extend_from_slice(&other.points);
+        // Replay the segments through the builder's own methods, so that the builder state
+        // (pending MoveTo, last MoveTo index) stays consistent with the appended verbs.
+        self.reserve(other.verbs.len(), other.points.len());
+        for segment in other.segments() {
+            match segment {
+                crate::PathSegment::MoveTo(p) => self.move_to(p.x, p.y),
+                crate::PathSegment::LineTo(p) => self.line_to(p.x, p.y),
+                crate::PathSegment::QuadTo(p1, p) => self.quad_to(p1.x, p1.y, p.x, p.y),
+                crate::PathSegment::CubicTo(p1, p2, p) => {
+                    self.cubic_to(p1.x, p1.y, p2.x, p2.y, p.x, p.y)
+                }
+                crate::PathSegment::Close => self.close(),
+            }
+        }
     }
 
     pub(crate) fn push_path_builder(&mut self, other: &PathBuilder) {
